@@ -386,14 +386,29 @@ pub struct LibCloneStats {
     pub left: usize,
 }
 
+/// the livelock budget of a library-level clone grows with the bytes it is given to scan (see
+/// cli::run_cli_os)
+fn with_budget_for<R>(bytes: u64, f: impl FnOnce() -> R) -> R {
+    let before = simkit::with(|s| {
+        let b = s.step_budget;
+        s.step_budget = b.saturating_add(bytes.saturating_mul(8));
+        b
+    });
+    let r = f();
+    simkit::with(|s| s.step_budget = before);
+    r
+}
+
 pub fn run_lib_clone_local(archive: Vec<u8>, output: SimFile, seeds: Vec<SimSource>, reorder_self: bool) -> Result<End<Result<LibCloneStats, String>>, String> {
+    let bytes = archive.len() as u64 * 2 + output.with(|g| g.data.len() as u64) + seeds.iter().map(|s| s.len() as u64).sum::<u64>();
     let reader = IoReader::new(SimFile::drawn(archive));
-    run_async(lib_clone(reader, output, seeds, reorder_self))
+    with_budget_for(bytes, || run_async(lib_clone(reader, output, seeds, reorder_self)))
 }
 
 pub fn run_lib_clone_http(output: SimFile, seeds: Vec<SimSource>, reorder_self: bool, retries: u32, delay_s: u64) -> Result<End<Result<LibCloneStats, String>>, String> {
+    let bytes = output.with(|g| g.data.len() as u64) + seeds.iter().map(|s| s.len() as u64).sum::<u64>();
     let reader = HttpReader::from_url(URL.parse().unwrap()).retries(retries).retry_delay(std::time::Duration::from_secs(delay_s));
-    run_async(lib_clone(reader, output, seeds, reorder_self))
+    with_budget_for(bytes, || run_async(lib_clone(reader, output, seeds, reorder_self)))
 }
 
 pub fn lib_outcome(r: &Result<End<Result<LibCloneStats, String>>, String>) -> Outcome {
